@@ -491,9 +491,9 @@ func cmdGrammar(args []string) {
 	fmt.Fprintln(stdout, string(b))
 }
 
-var cntKinds = []string{"cnt-1", "cnt+1", "cntfd", "cntfe", "cntffmax", "cntffbig", "cntneg", "cntwrap"}
+var cntKinds = []string{"cnt-1", "cnt+1", "cntfd", "cntfe", "cntffmax", "cntffbig", "cntneg", "cntwrap", "vec+1", "vec-1"}
 var lenKinds = []string{"lenover1", "lenfd", "lenfe", "lenff"}
-var valKinds = []string{"valfd", "valfe", "valff"}
+var valKinds = []string{"val+1", "val-1", "valfd", "valfe", "valff"}
 var frameKinds = []string{"badmagic", "badsum", "oversize", "encflag", "encflag0", "lenover1", "cmdfull"}
 
 // alphabet derives every payload class of every command from the grammar (the same derivation as Classes(cmd) in spec/P2P.tla).
